@@ -702,6 +702,35 @@ fn check_step(root: &Relations, text: &str, allow: bool, model: &Model, handles:
             k += 1;
         }
     }
+    // 5b. a handle to an element that was replaced or removed no longer belongs to the field: what
+    // is done through it later cannot show in the field (after seeded change C11-r9m1)
+    let live_entries: Vec<usize> = model.items.iter().map(|it| it.id).collect();
+    let live_rels: Vec<usize> = model
+        .items
+        .iter()
+        .flat_map(|it| match &it.kind {
+            Kind::Alts(a) => a.iter().map(|(r, _)| *r).collect::<Vec<_>>(),
+            _ => vec![],
+        })
+        .collect();
+    for (id, h) in &handles.entries {
+        if !live_entries.contains(id) {
+            if let Some(d) = guard(|| h.verif_dump_root()) {
+                if d == root_dump {
+                    return Some(format!("the handle of a removed / replaced entry still belongs to the field (it shows {:?})", h.to_string()));
+                }
+            }
+        }
+    }
+    for (_, rid, h) in &handles.rels {
+        if !live_rels.contains(rid) {
+            if let Some(d) = guard(|| h.verif_dump_root()) {
+                if d == root_dump {
+                    return Some(format!("the handle of a removed / replaced relation still belongs to the field (it shows {:?})", h.to_string()));
+                }
+            }
+        }
+    }
     // 6. the hand-built tree is the tree the parser builds for the same text
     if shape(&reparsed.verif_dump()) != shape(&root_dump) {
         return Some("tree shape: the edited tree is not the tree the parser builds for its own text".into());
